@@ -17,7 +17,8 @@ DSETS = {
 }
 WS = [" ", "\n", "\t", "  \n ", "\r\n", " \t ", "\u00a0", " \u2003\n", "\u3000 ", "\u0085", "\x0b\x0c"]     # Unicode White_Space, as str::trim
 CORES = ["x", "a{b", "%}", "}}", "#}", "a-b", "-", "é", "©ë", "世", "x}", "{ y", "%", "a # b", "}-", "\U0001F600", "a b", "->", "\u200b", "\u200bx\ufeff"]   # zero-width space / BOM are NOT whitespace
-RAWCORES = ["r", "{{ not }}", "{% if %}", "{# c #}", "{{- x -}}", "<< y >>", "¿ z ¡", "{% endra %}", "©-«", "{%- if x %} y", "{%- endra", "<%- z", "a -%}", "{%- raw -%}"]
+RAWCORES = ["r", "{{ not }}", "{% if %}", "{# c #}", "{{- x -}}", "<< y >>", "¿ z ¡", "{% endra %}", "©-«", "{%- if x %} y", "{%- endra", "<%- z", "a -%}", "{%- raw -%}",
+            "{%\u00a0endraw %}", "{%\u2003endraw\u00a0%} x", "{%\x0bendraw %}", "{% endraw\u00a0."]      # blanks that are not ASCII whitespace do not make a tag
 
 
 def concretise(src, ds, rnd):
